@@ -241,6 +241,39 @@ def run(prop, tier):
         return "# %s\n# case %s — replay: python3 tools/check.py %s --replay <this file>\n%s\n# ---- harness output (tail) ----\n# %s\n" % (
             header, case, prop, "\n".join(sc) if sc else "(script not retained)", out.replace("\n", "\n# "))
 
+    transit = None
+    if prop == "C03":
+        # second correspondence stream: the real TransitEventBuffer (growth from the reader position, slot reuse, shrink)
+        okt, tbin, tlog = vlib.build_harness("h3_transit", ["h3_transit.cpp"], extra_flags=["-fno-access-control"])
+        if not okt:
+            ck.violation("harness_build_transit", tlog, "harness h3_transit no longer compiles against the current tree", no_input=True)
+        else:
+            ntr, nops_t = (120, 250) if tier == "quick" else (2000, 400)
+            rct, outt = vlib.sh([tbin, "gen", str(ck.seed), str(ntr), str(nops_t)], env=vlib.ASAN_ENV, timeout=900)
+            rcd, dt = vlib.driver(["transit", "trace"], stdin_data=outt.encode(), timeout=900)
+            tl = [l for l in dt.split("\n") if l.startswith("TRACE ")]
+            tmm = [l for l in dt.split("\n") if l.startswith(("MISMATCH", "BAD-OP"))]
+            tor = [l for l in outt.split("\n") if l.startswith("ORACLE")]
+            transit = {"traces": len(tl), "lines": sum(int(dict(x.split("=") for x in l.split()[2:])["lines"]) for l in tl),
+                       "expands": sum(int(dict(x.split("=") for x in l.split()[2:])["expands"]) for l in tl),
+                       "shrinks": sum(int(dict(x.split("=") for x in l.split()[2:])["shrinks"]) for l in tl),
+                       "mismatches": len(tmm), "oracle_hits": len(tor)}
+            if rct not in (0, 3) or tor or tmm:
+                # replay = the ops of the first offending trace
+                bad_id = None
+                m0 = re.search(r"trace=(\S+)", (tor or tmm or [""])[0])
+                if m0:
+                    bad_id = m0.group(1)
+                ops, cur = [], None
+                for l in outt.split("\n"):
+                    if l.startswith("init "):
+                        cur = l.split()[1]
+                    if bad_id and cur == bad_id and not l.startswith(("ORACLE", "STATS")):
+                        ops.append(l.split(" => ")[0])
+                ck.violation("transit", "# h3_transit replay <this file>\n# %s\n%s\n" % ((tor or tmm or ["abort rc=%d" % rct])[0], "\n".join(ops)),
+                             "the real TransitEventBuffer is not a FIFO / disagrees with the model: %s" % (tor or tmm or ["abort rc=%d: %s" % (rct, outt[-300:])])[0][:300],
+                             no_input=not (tor or rct not in (0, 3)))
+
     mine_or = [o for o in res["oracle"] if o["prop"] == prop]
     mine_mm = [m for m in res["mismatches"] if prop in m["props"]]
     if res["aborts"]:
@@ -275,6 +308,8 @@ def run(prop, tier):
         "oracle_only_cases": res.get("oracle_only_cases", 0),
         "extracted": ex.get("backend", {}),
     })
+    if transit is not None:
+        ck.cov["transit_buffer_stream"] = transit
     return ck.finish()
 
 
